@@ -16,7 +16,7 @@ from .sym import B, Ctx, Infeasible, PathEnd, SymMap, SymObj, SymSet, Unsupporte
 from .vcrt import LoopSpec, Namespace  # noqa: F401  (re-exported for contracts)
 
 REGISTRY: dict[str, "Contract"] = {}
-CLASS_SPECS: dict[type, ty.Spec] = {}  # real class -> Rec/ObjOf spec used when the code constructs one
+CLASS_SPECS = ty.CLASS_SPECS  # real class -> Rec spec of its value objects
 GLOBAL_OVERRIDES: dict[str, dict[str, object]] = {}  # relpath -> {global name: replacement}
 INLINE_DENY: set[str] = set()
 
@@ -47,6 +47,8 @@ class Contract:
         self.note = kw.pop("note", "")
         self.await_hook = kw.pop("await_hook", None)
         self.max_paths = kw.pop("max_paths", 4000)
+        self.ghost = kw.pop("ghost", {})  # name -> Spec: universally quantified ghost constants of the contract
+        self.impl = kw.pop("impl", None)  # python stand-in executed by callers (assumed contract given as code)
         self.inline = kw.pop("inline", False)  # callers execute the body; on_inline(args, result) records ghosts
         self.on_inline = kw.pop("on_inline", None)
         if kw:
@@ -184,6 +186,8 @@ def wrap_global(value):
     if isinstance(value, pytypes.FunctionType) and _is_repo_module(value.__module__):
         return RepoFn(_relpath_of_module(value.__module__), value.__qualname__, value)
     if isinstance(value, type) and _is_repo_module(value.__module__):
+        if issubclass(value, enum.IntEnum):
+            return vcrt.EnumProxy(value)
         if issubclass(value, (BaseException, enum.Enum)):
             return value
         return RepoClass(value)
@@ -346,6 +350,9 @@ def dispatch_call(key, real, args, kwargs):
     c = sym.cur()
     con = REGISTRY.get(key)
     active = c.data.get("active")
+    if con is not None and key != active and con.impl is not None:
+        c.data.setdefault("callees", set()).add(con.qual)
+        return con.impl(*args, **kwargs)
     if con is not None and key != active and not con.inline:
         return call_contract(con, real, args, kwargs)
     if key in INLINE_DENY:
@@ -356,6 +363,7 @@ def dispatch_call(key, real, args, kwargs):
     fn, _ = get_transformed(key)
     c.data.setdefault("inlined", set()).add(key)
     c.data["inline_depth"] = depth + 1
+    c.event("inline", callee=key.split("::")[1], args=args, kwargs=kwargs)
     try:
         r = fn(*args, **kwargs)
         if con is not None and con.inline and con.on_inline is not None and key != active:
@@ -416,6 +424,10 @@ def call_contract(con: Contract, real, args, kwargs):
         c.prove(f"{tag}.pre", call_with(con.requires, avail), kind="pre", callee=con.qual)
     old = Namespace({n: snapshot(v) for n, v in bound.items()})
     avail["old"] = old
+    avail["trace"] = None  # the callee's own effects are not visible to its caller
+    if con.ghost:
+        # ghost constants are universally quantified: the caller gets one arbitrary instance
+        avail["ghost"] = Namespace({n: sp.fresh(c.fresh_name(f"{tag}.ghost.{n}")) for n, sp in con.ghost.items()})
     for exc, cond in con.raises.items():
         cv = call_with(cond, avail)
         if cv:
@@ -436,12 +448,17 @@ def call_contract(con: Contract, real, args, kwargs):
         rs = con.result(**{k2: v for k2, v in avail.items() if k2 in inspect.signature(con.result).parameters}) \
             if callable(con.result) and not isinstance(con.result, ty.Spec) else con.result
         result = rs.fresh(c.fresh_name(f"{tag}.result")) if isinstance(rs, ty.Spec) else rs
+        if hasattr(result, "__dict__") and not isinstance(result, SymObj):
+            sym.mark_born(result)
+        elif isinstance(result, SymObj) and not result._frozen:
+            sym.mark_born(result)
     avail["result"] = result
     if con.ensures is not None:
         c.assume(call_with(con.ensures, avail))
     if con.ensures_named:
         for _, f in con.ensures_named.items():
             c.assume(call_with(f, avail))
+    c.event("call", callee=con.name, args=bound, result=result, old=old)
     return result
 
 
@@ -524,10 +541,12 @@ def verify_function(con: Contract) -> FnReport:
             args = {}
             for n, sp in con.args.items():
                 args[n] = sp.fresh(n) if isinstance(sp, ty.Spec) else sp(args)
+            ghost = {n: sp.fresh("ghost." + n) for n, sp in con.ghost.items()}
+            c.data["ghost"] = Namespace(ghost)
             if con.setup is not None:
                 con.setup(args)
             if con.requires is not None:
-                c.assume(call_with(con.requires, args))
+                c.assume(call_with(con.requires, dict(args, ghost=c.data["ghost"])))
             old = Namespace({n: snapshot(v) for n, v in args.items()})
             c.data["old"] = old
             c.data["args"] = args
@@ -538,6 +557,7 @@ def verify_function(con: Contract) -> FnReport:
             try:
                 result = fn(**args)
                 outcome = ("return", result)
+                c.data["result"] = result
             except (PathEnd, Infeasible, Unsupported):
                 raise
             except RecursionError:
@@ -550,6 +570,7 @@ def verify_function(con: Contract) -> FnReport:
             avail = dict(args)
             avail["old"] = old
             avail["trace"] = c.trace
+            avail["ghost"] = c.data["ghost"]
             if outcome[0] == "return":
                 avail["result"] = outcome[1]
                 for exc, cond in con.raises.items():
@@ -622,7 +643,7 @@ def _event(self, kind, **data):
         k = self.counters.get("ev:" + kind, 0)
         self.counters["ev:" + kind] = k + 1
         self.prove(f"event.{kind}#{k}", call_with(g, avail), kind="event")
-    elif "*" in guards:
+    elif "*" in guards and kind not in ("call", "await", "yield", "inline"):
         self.prove(f"event.{kind}.forbidden", tm.FALSE, kind="event", detail=f"unexpected effect {kind}")
     return e
 
